@@ -20,6 +20,9 @@ inductive Ev where
   | gfeed (sid seq : Nat)     -- gateway: a SEND of session sid was fed (and admitted) before Server.Stop
   | ghandled (sid seq : Nat)  -- gateway: it reached the message usecase
   | gabandoned (sid seq : Nat) -- gateway: it never did (3 s after the handlers were released)
+  | quiesceRet (n : Nat)      -- delivery: Quiesce returned nil while the ACK tracker held n pending RECVACKs (999 = error)
+  | quiesceHung               -- delivery: Quiesce did not return (20 s after the RECVACK)
+  | note                      -- verdict-neutral
   deriving DecidableEq, Repr, Inhabited
 
 /-- after the stop began (model: the flag is set; log: some Stop call returned) nothing is admitted -/
@@ -67,6 +70,8 @@ def noCancellation (l : List Ev) : Bool :=
 
 def judge (l : List Ev) : String :=
   if l.any (fun | .stopRet _ 2 => true | _ => false) then "viol:stop-hung"
+  else if l.any (fun | .quiesceHung => true | _ => false) then "viol:quiesce-hung"
+  else if l.any (fun | .quiesceRet n => n != 0 | _ => false) then "viol:quiesce-returned-with-pending-recvack"
   else if l.any (fun | .gabandoned _ _ => true | _ => false) then "viol:gateway-admitted-send-abandoned"
   else if !((l.filterMap fun | .gfeed a b => some (a, b) | _ => none).all fun x =>
       (l.filterMap fun | .ghandled a b => some (a, b) | _ => none).contains x) then "viol:gateway-admitted-send-abandoned"
